@@ -215,6 +215,8 @@ def analyse(job):
             if not d.get('ok'):
                 if expected_rej is not None and d.get('error') == expected_rej:
                     row['status'] = 'rejected-as-documented'
+                elif d.get('error') in ref.tolerated_rejections(resolver):
+                    row['status'] = 'rejected-placeholder-in-word-rule'
                 else:
                     row['status'] = 'unexpected-rejection'
                     res['inconclusive'].append('complgen rejected a clean-by-construction grammar (%s/%s) for %s: %r'
@@ -304,5 +306,200 @@ def analyse(job):
         except autosmt.z3.Z3Exception as e:
             row['status'] = 'inconclusive'
             res['inconclusive'].append('z3: %s [%s] %r' % (e, shell, text))
+    res['stats'] = (stats.queries, stats.solver_s)
+    return res
+
+
+# ---------------------------------------------------------------------------------------------
+# C09: word-level overlap (query 5) and `||` -> `|` level-erased equivalence
+
+def z3_regex_of(r, cmd_marks):
+    """Reference within-word expression -> z3 regex over strings. A command stands for an opaque
+    marker (its candidates are not known at compile time), a placeholder for any string."""
+    z3 = autosmt.z3
+    k = r[0]
+    if k == 'eps':
+        return z3.Re(z3.StringVal(''))
+    if k == 'empty':
+        return z3.Empty(z3.ReSort(z3.StringSort()))
+    if k == 'item':
+        key = r[1]
+        if key[0] == 'lit':
+            return z3.Re(z3.StringVal(key[1]))
+        if key[0] == 'cmd':
+            m = cmd_marks.setdefault((key[1], key[2]), len(cmd_marks))
+            return z3.Re(z3.StringVal('\x01%d\x01' % m))
+        if key[0] == 'any':
+            return z3.Full(z3.ReSort(z3.StringSort()))
+        raise KeyError(key)
+    if k == 'cat':
+        return z3.Concat(z3_regex_of(r[1], cmd_marks), z3_regex_of(r[2], cmd_marks))
+    if k == 'alt':
+        parts = [z3_regex_of(x, cmd_marks) for x in r[1]]
+        out = parts[0]
+        for p in parts[1:]:
+            out = z3.Union(out, p)
+        return out
+    if k == 'star':
+        return z3.Star(z3_regex_of(r[1], cmd_marks))
+    raise KeyError(k)
+
+
+def same_word_language(r1, r2, stats):
+    """query 5: is there a string accepted by exactly one of the two within-word expressions?
+    unsat => the two expressions accept exactly the same words (unbounded word length)."""
+    z3 = autosmt.z3
+    marks = {}
+    R1, R2 = z3_regex_of(r1, marks), z3_regex_of(r2, marks)
+    w = z3.String('w')
+    s = z3.Solver()
+    s.add(z3.InRe(w, z3.Union(z3.Intersect(R1, z3.Complement(R2)), z3.Intersect(R2, z3.Complement(R1)))))
+    differ = autosmt._check(s, 'word-xor', stats)
+    return not differ
+
+
+def erase_key(k, subclass_erased=None):
+    if k[0] == 'lit':
+        return ('lit', k[1])
+    if k[0] == 'cmd':
+        return ('cmd', k[1], k[2])
+    if k[0] == 'sub':
+        return ('sub', k[1])
+    return k
+
+
+def fb_to_alt(n):
+    k = n[0]
+    if k == 'fb':
+        return ('alt', tuple(fb_to_alt(c) for c in n[1]))
+    if k in ('seq', 'alt', 'sub'):
+        return (k, tuple(fb_to_alt(c) for c in n[1]))
+    if k in ('opt', 'many'):
+        return (k, fb_to_alt(n[1]))
+    if k == 'descr':
+        return (k, fb_to_alt(n[1]), n[2])
+    return n
+
+
+def grammar_fb_to_alt(g):
+    return {'command': g['command'], 'variants': [fb_to_alt(v) for v in g['variants']],
+            'defs': [(n, sh, fb_to_alt(e)) for (n, sh, e) in g['defs']]}
+
+
+def erased_sub_auto(d):
+    st, start, trans, acc = autosmt.nfa_of_dump(d, lambda inp: erase_key(base_key(inp)))
+    a, _ = autosmt.determinise(start, trans, acc)
+    return trim(a)
+
+
+def analyse_c09(job):
+    g, shells = job
+    text = gram.print_grammar(g)
+    g2 = grammar_fb_to_alt(g)
+    text2 = gram.print_grammar(g2)
+    res = {'text': text, 'violations': [], 'inconclusive': [], 'stats': None, 'rows': []}
+    stats = Stats()
+    for shell in shells:
+        row = {'shell': shell, 'status': None, 'nontrivial': False, 'pairs_checked': 0}
+        res['rows'].append(row)
+        try:
+            try:
+                resolver, R0 = ref.reference(g, shell)
+            except ref.RefError as e:
+                row['status'] = 'outside-reference:%s' % e
+                continue
+            if ref.expected_rejection(resolver, R0) is not None:
+                row['status'] = 'rejected-as-documented'
+                continue
+            d = cgv().dump(shell, text)
+            d2 = cgv().dump(shell, text2)
+            if (not d.get('ok') and d.get('error') in ref.tolerated_rejections(resolver)):
+                row['status'] = 'rejected-placeholder-in-word-rule'
+                continue
+            if not d.get('ok') or d.get('ambiguity') or not d2.get('ok') or d2.get('ambiguity'):
+                row['status'] = 'unexpected-rejection'
+                res['inconclusive'].append('complgen rejected a clean-by-construction grammar: %r' % text)
+                continue
+            row['status'] = 'ok'
+            mn = d['min']
+            row['min_states'] = len(autosmt.states_of(mn))
+            row['nontrivial'] = row['min_states'] >= 3 or bool(mn['subdfas'])
+            # (i) per state: two outgoing items that accept a common word and differ in target
+            subclass = {}
+            for j, sd in enumerate(mn['subdfas']):
+                cid, _ = classify_sub(sd, resolver, stats)
+                subclass[j] = cid
+            by_state = {}
+            for (f, i, t) in mn['transitions']:
+                by_state.setdefault(f, []).append((i, t))
+            for f, outs in sorted(by_state.items()):
+                for a in range(len(outs)):
+                    for b in range(a + 1, len(outs)):
+                        (i1, t1), (i2, t2) = outs[a], outs[b]
+                        if t1 == t2:
+                            continue
+                        x, y = mn['inputs'][i1], mn['inputs'][i2]
+                        same = (x['kind'] == y['kind'] and
+                                {k: v for k, v in x.items() if k not in ('level', 'descr')} ==
+                                {k: v for k, v in y.items() if k not in ('level', 'descr')})
+                        if same and x['kind'] != 'star':
+                            row['pairs_checked'] += 1
+                            what = x.get('text', x.get('cmd', 'within-word automaton %s' % x.get('dfa')))
+                            res['violations'].append((
+                                'C09', 'same-%s-two-targets' % {'lit': 'literal', 'cmd': 'command', 'compadd': 'command', 'sub': 'subword'}[x['kind']],
+                                'state %d of the minimised automaton for %s expects %s %r twice (levels %d and %d) '
+                                'with different continuations (states %d and %d)' % (f, shell, x['kind'], what, x['level'], y['level'], t1, t2),
+                                {'grammar': text, 'shell': shell, 'state': f, 'item': what, 'min': mn}))
+                        elif x['kind'] == 'sub' and y['kind'] == 'sub':
+                            c1, c2 = subclass.get(x['dfa']), subclass.get(y['dfa'])
+                            if c1 is None or c2 is None:
+                                raise Inconclusive('within-word automaton without a reference class (see C02)')
+                            row['pairs_checked'] += 1
+                            if c1 == c2 or same_word_language(resolver.sub_exprs[c1], resolver.sub_exprs[c2], stats):
+                                import json as _json
+                                identical = (_json.dumps(mn['subdfas'][x['dfa']], sort_keys=True) ==
+                                             _json.dumps(mn['subdfas'][y['dfa']], sort_keys=True))
+                                res['violations'].append((
+                                    'C09', 'identical-subwords-two-targets' if identical else 'equal-subwords-two-targets',
+                                    'state %d of the minimised automaton for %s has two within-word items that accept exactly the '
+                                    'same words but lead to different states (%d and %d)' % (f, shell, t1, t2),
+                                    {'grammar': text, 'shell': shell, 'state': f, 'min': mn}))
+            # (ii) level-erased equivalence of G and G[|| := |], automata treated as NFAs
+            subs = [erased_sub_auto(sd) for sd in d['min']['subdfas']]
+            subs2 = [erased_sub_auto(sd) for sd in d2['min']['subdfas']]
+            classes = []   # representatives
+            def cls(a):
+                for ci, rep in enumerate(classes):
+                    if a.keys() == rep.keys() and autosmt.bisim(a, rep, stats, kind='bisim-erased-sub')[0]:
+                        return ci
+                classes.append(a)
+                return len(classes) - 1
+            m1 = {j: cls(a) for j, a in enumerate(subs)}
+            m2 = {j: cls(a) for j, a in enumerate(subs2)}
+
+            def mk(dd, mm):
+                def keyfn(inp):
+                    if inp['kind'] == 'sub':
+                        return ('sub', mm[inp['dfa']])
+                    return erase_key(base_key(inp))
+                st, start, trans, acc = autosmt.nfa_of_dump(dd['min'], keyfn)
+                a, _ = autosmt.determinise(start, trans, acc)
+                return trim(a)
+            A1, A2 = mk(d, m1), mk(d2, m2)
+            ok, _ = autosmt.bisim(A1, A2, stats, kind='bisim-erased')
+            row['erased_equiv'] = ok
+            if not ok:
+                seq = autosmt.distinguish(A1, A2, stats)
+                if seq is None or autosmt.walk(A1, seq)[0] == autosmt.walk(A2, seq)[0]:
+                    raise Inconclusive('level-erased inequivalence without a reproducing sequence')
+                res['violations'].append((
+                    'C09', 'fallback-changes-matching',
+                    'replacing || by | changes what is matched for %s: item sequence %r is %s with || and %s with |'
+                    % (shell, seq, 'accepted' if autosmt.walk(A1, seq)[0] else 'rejected',
+                       'accepted' if autosmt.walk(A2, seq)[0] else 'rejected'),
+                    {'grammar': text, 'grammar_alt': text2, 'shell': shell, 'sequence': [list(map(str, k)) for k in seq]}))
+        except Inconclusive as e:
+            row['status'] = 'inconclusive'
+            res['inconclusive'].append('%s [%s] %r' % (e, shell, text))
     res['stats'] = (stats.queries, stats.solver_s)
     return res
